@@ -241,7 +241,7 @@ extern "C" int engineexport_initialize_grid (
       mesh_x = SpeciesFirstToMeshFirstArray(MkVec<double, double>(mesh_state, n_meshes*n_species), n_species, n_meshes);
       for(size_t i=0; i<mesh_x.size(); i++)
         {
-        mesh_x[i] = static_cast<double>(std::poisson_distribution<int>(mesh_x[i])(rng));
+        mesh_x[i] = static_cast<double>(std::poisson_distribution<long long>(mesh_x[i])(rng));
         }
       }
     else if(CompareStr(init_state_processing, "floor"))
@@ -372,7 +372,7 @@ extern "C" int engineexport_initialize_graph (
       mesh_x = SpeciesFirstToMeshFirstArray(MkVec<double, double>(mesh_state, n_meshes*n_species), n_species, n_meshes);
       for(size_t i=0; i<mesh_x.size(); i++)
         {
-        mesh_x[i] = static_cast<double>(std::poisson_distribution<int>(mesh_x[i])(rng));
+        mesh_x[i] = static_cast<double>(std::poisson_distribution<long long>(mesh_x[i])(rng));
         }
       }
     else if(CompareStr(init_state_processing, "floor"))
